@@ -229,6 +229,9 @@ var (
 	ErrCookieTooLong             = stderrors.New("cookie must not be longer than 255 bytes")
 	ErrSessionIDTooLong          = stderrors.New("session ID must not be longer than 255 bytes")
 	ErrCertificateTypesTooLong   = stderrors.New("certificate types must not be longer than 255 entries")
+	ErrCertificateRequestTooLong = stderrors.New(
+		"signature algorithms and certificate authorities must not be longer than 65535 bytes each",
+	)
 	ErrCompressionMethodsTooLong = stderrors.New(
 		"compression methods must not be longer than 255 entries",
 	)
